@@ -415,6 +415,27 @@ class NumpyProxy:
     def ones_like(self, a, dtype=None, **kw):
         return self._alloc("ones_like", a, dtype, True, 1.0, kw)
 
+    # ---- arange with symbolic bounds: ceil((stop - start) / step) nodes start + k*step (exact reals)
+    def arange(self, *args, **kw):
+        if not any(isinstance(a, SymNum) for a in args):
+            return _np.arange(*args, **kw)
+        self._ov("arange")
+        if len(args) == 1:
+            start, stop, step = 0, args[0], 1
+        elif len(args) == 2:
+            start, stop, step = args[0], args[1], 1
+        else:
+            start, stop, step = args[:3]
+        import math
+
+        cnt = math.ceil((stop - start) / step)
+        k = int(cnt) if not isinstance(cnt, int) else cnt
+        k = max(k, 0)
+        out = _np.empty(k, dtype=object)
+        for i in range(k):
+            out[i] = start + i * step
+        return out
+
     # ---- conversions that involve a modelled dtype
     def asarray(self, a, dtype=None, **kw):
         if isinstance(dtype, SymDType):
